@@ -3,11 +3,13 @@
    [any rnd]: holds for every rounding function (hence for the float-faithful model).
    [exact]: assumes exact arithmetic (forall x, cf_rnd C x == x): the code accumulates float deltas; these
    theorems show the algorithm has no drift of its own and that every reconcile recomputes the exact sum.
-   The size of IEEE drift between reconciles is measured by the monitor, not proved (DESIGN.md C04). *)
+   [float]: the float-faithful model (forall x, cf_rnd C x == rnd64 x): the size of the IEEE drift between
+   two reconciles and the error of a reconcile are bounded explicitly (second half of this file; proofs in
+   Proofs/FloatBoundFacts.v). *)
 From Coq Require Import List ZArith QArith.
 Import ListNotations.
 From Eudoxia Require Import Model.Types Model.Lifecycle Model.Container Model.Pool Model.Executor
-  Proofs.OomFacts Proofs.MemoryFacts.
+  Proofs.OomFacts Proofs.MemoryFacts Num.Rnd64 Proofs.FloatBoundFacts.
 
 (* [any rnd] after every pool tick no running container is over its allocation (and none is finished) *)
 Theorem C04_within_alloc : forall C w next p ss asgs w' next' p' res,
@@ -96,3 +98,226 @@ Example C04_witness : reach_exec Examples.exC 1 4%Z 10%Q Examples.s2 /\
   forall p, In p (e_pools Examples.s2) ->
     (p_consumed p <= p_max_ram p)%Q /\ (p_consumed p == sumQ (map c_mem (p_active p)))%Q.
 Proof. split; [exact Examples.ex_reach | exact Examples.ex_C04]. Qed.
+
+(* ====================================================================== *)
+(* [float] the float-faithful model                                        *)
+(* ====================================================================== *)
+(* Vocabulary (Proofs/FloatBoundFacts.v):
+   upd rnd c old new = rnd (c + rnd (new - old))      what set_current_memory_usage does to consumed_ram_gb;
+   run_f rnd c l / run_e e l                          a list l of updates (old, new) applied to c with
+                                                      rounding / to e exactly;
+   steps_ok M S e l                                   all old, new within [-M, M], every exact value within [-S, S];
+   nQ k                                               the natural number k as a rational;
+   sumabs l                                           the sum of the absolute values;
+   script_bd C M                                      every memory demand of every script is within [-M, M];
+   cbd M c                                            the usage of c and its demands still to come are within [-M, M];
+   pool_run C n p k p'                                p' is reached from p by pool ticks, at most n running containers
+                                                      after each of them, and k is the number of container-ticks since
+                                                      the last tick in which a container left the running set (was
+                                                      suspended, finished or was killed; such a tick recomputes the
+                                                      usage), or since p. *)
+
+(* [float] k incremental updates starting from a value whose error is at most D0: the drift is at most
+   D0 (1 + k 2^-52) + k (S + 3 M) 2^-52 *)
+Theorem C04_float_update_drift : forall M S D0 l c e,
+  (0 <= M)%Q -> (0 <= S)%Q -> (0 <= D0)%Q ->
+  (Z.of_nat (length l) <= 4503599627370496)%Z ->
+  steps_ok M S e l -> (Qabs.Qabs (c - e) <= D0)%Q ->
+  (Qabs.Qabs (run_f rnd64 c l - run_e e l) <=
+     D0 * (1 + nQ (length l) * (1 # 4503599627370496)) +
+     nQ (length l) * (S + 3 * M) * (1 # 4503599627370496))%Q.
+Proof. exact rnd64_drift_seq. Qed.
+Print Assumptions C04_float_update_drift.
+
+(* [float] the pool: after any number of ticks, the reported usage differs from the exact sum of the
+   (float) usages of the running containers by at most
+       E (1 + k 2^-52) + k (n + 3) M 2^-52,     E = 3 n M 2^-53 (the error of one reconcile),
+   where k counts the container-ticks since the usage was last recomputed. The start p is any pool whose
+   reported usage is within E of the sum (a new pool, or the pool after any reconciling tick). *)
+Theorem C04_float_drift_bound : forall C M n p k p',
+  (forall x, (cf_rnd C x == rnd64 x)%Q) -> (0 <= M)%Q -> script_bd C M ->
+  (Z.of_nat n <= 1048576)%Z -> (Z.of_nat k <= 4503599627370496)%Z ->
+  pool_run C n p k p' ->
+  Forall (cbd M) (p_active p) ->
+  (Qabs.Qabs (p_consumed p - sumQ (map c_mem (p_active p))) <= 3 * nQ n * M * (1 # 9007199254740992))%Q ->
+  (Qabs.Qabs (p_consumed p' - sumQ (map c_mem (p_active p'))) <=
+     3 * nQ n * M * (1 # 9007199254740992) * (1 + nQ k * (1 # 4503599627370496)) +
+     nQ k * ((nQ n + 3) * M) * (1 # 4503599627370496))%Q.
+Proof. exact float_drift_bound. Qed.
+Print Assumptions C04_float_drift_bound.
+
+(* ... in short (k + 3) (n + 3) M 2^-52 *)
+Theorem C04_float_drift_bound_simple : forall C M n p k p',
+  (forall x, (cf_rnd C x == rnd64 x)%Q) -> (0 <= M)%Q -> script_bd C M ->
+  (Z.of_nat n <= 1048576)%Z -> (Z.of_nat k <= 4503599627370496)%Z ->
+  pool_run C n p k p' ->
+  Forall (cbd M) (p_active p) ->
+  (Qabs.Qabs (p_consumed p - sumQ (map c_mem (p_active p))) <= 3 * nQ n * M * (1 # 9007199254740992))%Q ->
+  (Qabs.Qabs (p_consumed p' - sumQ (map c_mem (p_active p'))) <=
+     (nQ k + 3) * ((nQ n + 3) * M) * (1 # 4503599627370496))%Q.
+Proof. exact float_drift_bound_simple. Qed.
+Print Assumptions C04_float_drift_bound_simple.
+
+(* the start condition holds for a new pool *)
+Theorem C04_float_new_pool : forall id cpu ram n M, (0 <= M)%Q ->
+  Forall (cbd M) (p_active (new_pool id cpu ram)) /\
+  (Qabs.Qabs (p_consumed (new_pool id cpu ram) - sumQ (map c_mem (p_active (new_pool id cpu ram)))) <=
+     3 * nQ n * M * (1 # 9007199254740992))%Q.
+Proof. exact new_pool_start. Qed.
+Print Assumptions C04_float_new_pool.
+
+(* [float] one tick, the two cases.
+   Nobody is suspended, nobody finishes or is killed: at most one update per running container. *)
+Theorem C04_float_quiet_tick : forall C M n D0,
+  rel_rnd (cf_rnd C) -> (0 <= M)%Q -> (0 <= D0)%Q -> script_bd C M ->
+  forall w next p asgs w' next' p' k,
+  pool_tick C w next p [] asgs = Ok (w', next', p', []) ->
+  Forall (cbd M) (p_active p) -> length (p_active p') <= n ->
+  (Qabs.Qabs (p_consumed p - sumQ (map c_mem (p_active p))) <= dbound D0 ((nQ n + 3) * M) k)%Q ->
+  Forall (cbd M) (p_active p') /\
+  (Qabs.Qabs (p_consumed p' - sumQ (map c_mem (p_active p'))) <=
+     dbound D0 ((nQ n + 3) * M) (k + length (p_active p')))%Q.
+Proof. exact quiet_tick_drift. Qed.
+Print Assumptions C04_float_quiet_tick.
+
+(* A container leaves the running set: whatever the drift was, the usage is recomputed; when a container
+   finished or was killed (res <> []) the new value is the reconcile of the containers still running. *)
+Theorem C04_float_reset_tick : forall C M n w next p ss asgs w' next' p' res,
+  rel_rnd (cf_rnd C) -> (0 <= M)%Q -> script_bd C M -> (Z.of_nat n <= 1048576)%Z ->
+  pool_tick C w next p ss asgs = Ok (w', next', p', res) ->
+  ss <> [] \/ res <> [] ->
+  Forall (cbd M) (p_active p) -> length (p_active p') <= n ->
+  Forall (cbd M) (p_active p') /\
+  (res <> [] -> p_consumed p' = reconcile C (p_active p') /\
+     (Qabs.Qabs (p_consumed p' - sumQ (map c_mem (p_active p'))) <= 3 * nQ n * M * (1 # 9007199254740992))%Q) /\
+  (Qabs.Qabs (p_consumed p' - sumQ (map c_mem (p_active p'))) <=
+     dbound (3 * nQ n * M * (1 # 9007199254740992)) ((nQ n + 3) * M) (length (p_active p')))%Q.
+Proof. exact reset_tick_drift. Qed.
+Print Assumptions C04_float_reset_tick.
+
+(* [float] the error of a reconcile. Python's sum() (Neumaier) of at most 2^20 binary64 numbers:
+   |py_sum l - sum l| <= 2^-53 (|sum l| + (1 + 2^-10) sum |l_i|), independent of the number of items;
+   for non-negative items a relative error of at most 3 * 2^-53.
+   Partial with respect to the best known bound (2^-53 |sum l| + O(n 2^-106) sum |l_i|): the proof uses the
+   relative error of every rounding only, not the exactness of the error term (f - t) + x. *)
+Theorem C04_reconcile_error_bound : forall l,
+  (Z.of_nat (length l) <= 1048576)%Z ->
+  (Qabs.Qabs (py_sum rnd64 l - sumQ l) <=
+     (Qabs.Qabs (sumQ l) + (1025 # 1024) * sumabs l) * (1 # 9007199254740992))%Q.
+Proof. exact rnd64_py_sum_error. Qed.
+Print Assumptions C04_reconcile_error_bound.
+
+Theorem C04_reconcile_error_bound_nonneg : forall l,
+  (Z.of_nat (length l) <= 1048576)%Z -> (forall x, In x l -> (0 <= x)%Q) ->
+  (Qabs.Qabs (py_sum rnd64 l - sumQ l) <= sumQ l * (3 # 9007199254740992))%Q.
+Proof. exact rnd64_py_sum_error_nonneg. Qed.
+Print Assumptions C04_reconcile_error_bound_nonneg.
+
+(* the single-rounding bound, conditional: [comp_exact rnd64 f c l] says that along the loop of sum() the
+   compensation c absorbs the rounding error of every addition f + x without an error of its own
+   (c + (f + x - f') == c'); then the result is ONE rounding of the exact sum. The condition is decidable on
+   concrete lists (C04_reconcile_witness_exact below); that it always holds for the first two of the three
+   compensation roundings (error-free transformation) is not proved here. *)
+Theorem C04_reconcile_error_single_rounding_partial : forall x t,
+  comp_exact rnd64 x 0 t ->
+  (Qabs.Qabs (py_sum rnd64 (x :: t) - sumQ (x :: t)) <= Qabs.Qabs (sumQ (x :: t)) * (1 # 9007199254740992))%Q.
+Proof. exact rnd64_py_sum_error_comp_exact. Qed.
+Print Assumptions C04_reconcile_error_single_rounding_partial.
+
+(* ... and in the pool: after a tick in which a container finished or was killed the reported usage IS that
+   sum() over the containers still running *)
+Theorem C04_float_reconcile_tick : forall C w next p ss asgs w' next' p' res,
+  (forall x, (cf_rnd C x == rnd64 x)%Q) ->
+  pool_tick C w next p ss asgs = Ok (w', next', p', res) -> res <> [] ->
+  (Z.of_nat (length (p_active p')) <= 1048576)%Z ->
+  p_consumed p' = py_sum (cf_rnd C) (map c_mem (p_active p')) /\
+  (Qabs.Qabs (p_consumed p' - sumQ (map c_mem (p_active p'))) <=
+     (Qabs.Qabs (sumQ (map c_mem (p_active p'))) + (1025 # 1024) * sumabs (map c_mem (p_active p'))) *
+     (1 # 9007199254740992))%Q /\
+  ((forall c, In c (p_active p') -> (0 <= c_mem c)%Q) ->
+   (Qabs.Qabs (p_consumed p' - sumQ (map c_mem (p_active p'))) <=
+      sumQ (map c_mem (p_active p')) * (3 # 9007199254740992))%Q).
+Proof. exact float_reconcile_tick. Qed.
+Print Assumptions C04_float_reconcile_tick.
+
+(* [float] numbers. The monitor of the harness compares with a tolerance of 1e-6 GB; this is justified
+   whenever (k + 3) (n + 3) M <= 4503599627 = floor (2^52 / 10^6) ... *)
+Theorem C04_float_drift_tolerance : forall C M n p k p',
+  (forall x, (cf_rnd C x == rnd64 x)%Q) -> (0 <= M)%Q -> script_bd C M ->
+  (Z.of_nat n <= 1048576)%Z -> (Z.of_nat k <= 4503599627370496)%Z ->
+  pool_run C n p k p' ->
+  Forall (cbd M) (p_active p) ->
+  (Qabs.Qabs (p_consumed p - sumQ (map c_mem (p_active p))) <= 3 * nQ n * M * (1 # 9007199254740992))%Q ->
+  ((nQ k + 3) * ((nQ n + 3) * M) <= 4503599627)%Q ->
+  (Qabs.Qabs (p_consumed p' - sumQ (map c_mem (p_active p'))) <= 1 # 1000000)%Q.
+Proof. exact float_drift_tolerance. Qed.
+Print Assumptions C04_float_drift_tolerance.
+
+(* ... for instance at the scale of the harness (values up to 512 GB, at most 16 running containers in a
+   pool) for up to 400000 container-ticks between two reconciles; *)
+Theorem C04_float_drift_harness_scale : forall C M n k p p',
+  (forall x, (cf_rnd C x == rnd64 x)%Q) -> (0 <= M)%Q -> script_bd C M ->
+  pool_run C n p k p' ->
+  Forall (cbd M) (p_active p) ->
+  (Qabs.Qabs (p_consumed p - sumQ (map c_mem (p_active p))) <= 3 * nQ n * M * (1 # 9007199254740992))%Q ->
+  (M <= 512)%Q -> (Z.of_nat n <= 16)%Z -> (Z.of_nat k <= 400000)%Z ->
+  (Qabs.Qabs (p_consumed p' - sumQ (map c_mem (p_active p'))) <= 1 # 1000000)%Q.
+Proof. exact drift_harness_scale. Qed.
+Print Assumptions C04_float_drift_harness_scale.
+
+(* with values up to 1024 GB and 1000 running containers for up to 4380 container-ticks; *)
+Theorem C04_float_drift_large_scale : forall C M n k p p',
+  (forall x, (cf_rnd C x == rnd64 x)%Q) -> (0 <= M)%Q -> script_bd C M ->
+  pool_run C n p k p' ->
+  Forall (cbd M) (p_active p) ->
+  (Qabs.Qabs (p_consumed p - sumQ (map c_mem (p_active p))) <= 3 * nQ n * M * (1 # 9007199254740992))%Q ->
+  (M <= 1024)%Q -> (Z.of_nat n <= 1000)%Z -> (Z.of_nat k <= 4380)%Z ->
+  (Qabs.Qabs (p_consumed p' - sumQ (map c_mem (p_active p'))) <= 1 # 1000000)%Q.
+Proof. exact drift_large_scale_tolerance. Qed.
+Print Assumptions C04_float_drift_large_scale.
+
+(* with 10^6 container-ticks at that scale the bound is 2.3e-4 GB, not 1e-6 GB *)
+Theorem C04_float_drift_large_scale_million : forall C M n k p p',
+  (forall x, (cf_rnd C x == rnd64 x)%Q) -> (0 <= M)%Q -> script_bd C M ->
+  pool_run C n p k p' ->
+  Forall (cbd M) (p_active p) ->
+  (Qabs.Qabs (p_consumed p - sumQ (map c_mem (p_active p))) <= 3 * nQ n * M * (1 # 9007199254740992))%Q ->
+  (M <= 1024)%Q -> (Z.of_nat n <= 1000)%Z -> (Z.of_nat k <= 1000000)%Z ->
+  (Qabs.Qabs (p_consumed p' - sumQ (map c_mem (p_active p'))) <= 23 # 100000)%Q.
+Proof. exact drift_large_scale_million. Qed.
+Print Assumptions C04_float_drift_large_scale_million.
+
+(* non-vacuity (cf_rnd = rnd64, memory demands 0.1 0.2 0.3 0.3 and 0.7 0.1 0.4 0.4 0.4 GB): three quiet
+   ticks of a pool with two containers, k = 6; the reported usage is off by 2^-54 GB, not zero, and within
+   the bound; in the fourth tick a container finishes, the usage is recomputed and the count restarts *)
+Example C04_float_witness :
+  pool_run FloatExamples.exF 2 (FloatExamples.pl FloatExamples.st0) 6
+           (FloatExamples.pl FloatExamples.st3) /\
+  map FloatExamples.usage
+      [FloatExamples.st1; FloatExamples.st2; FloatExamples.st3;
+       FloatExamples.st4] =
+  [(7205759403792793 # 9007199254740992, 28823037615171173 # 36028797018963968, (-1) # 36028797018963968);
+   (2702159776422297 # 9007199254740992, 10808639105689191 # 36028797018963968, (-3) # 36028797018963968);
+   (3152519739159347 # 4503599627370496, 12610078956637389 # 18014398509481984, (-1) # 18014398509481984);
+   (3602879701896397 # 9007199254740992, 3602879701896397 # 9007199254740992, 0)]%Q /\
+  (Qabs.Qabs (p_consumed (FloatExamples.pl FloatExamples.st3)
+              - sumQ (map c_mem (p_active (FloatExamples.pl FloatExamples.st3)))) <=
+     (6 + 3) * ((2 + 3) * 1) * (1 # 4503599627370496))%Q /\
+  pool_run FloatExamples.exF 2 (FloatExamples.pl FloatExamples.st0) 1
+           (FloatExamples.pl FloatExamples.st4).
+Proof.
+  split; [exact FloatExamples.ex_run3|].
+  split; [exact FloatExamples.ex_usages|].
+  split; [exact (proj2 FloatExamples.ex_pool_drift) | exact FloatExamples.ex_run4].
+Qed.
+
+(* sum([0.1, 0.2, 0.3]) = 0.6 differs from the exact sum of the three binary64 numbers by 2^-55 *)
+Example C04_reconcile_witness :
+  Qred (py_sum rnd64 [FloatExamples.d01; FloatExamples.d02; FloatExamples.d03]
+        - sumQ [FloatExamples.d01; FloatExamples.d02; FloatExamples.d03])
+  = ((-1) # 36028797018963968)%Q.
+Proof. exact (proj1 (proj2 FloatExamples.ex_py_sum)). Qed.
+
+Example C04_reconcile_witness_exact :
+  comp_exact rnd64 FloatExamples.d01 0 [FloatExamples.d02; FloatExamples.d03].
+Proof. exact FloatExamples.ex_py_sum_comp_exact. Qed.
